@@ -196,7 +196,7 @@ def range_obligations(pid, tier, seed):
             obs.append(dict(id=base + '/minmax', mod='h_range', fn='minmax_step', nk=m,
                             args=[('lo', 'int'), ('bm', 'int'), ('which', 'int')],
                             pre=['0 <= bm < 3', '0 <= which < 2'], params=P, timeout=timeout))
-            if tag == 'core' or tier != 'quick':
+            if (tag == 'core' and m <= 5) or tier != 'quick':
                 obs.append(dict(id=base + '/seq', mod='h_range', fn='seq_step', nk=m,
                                 args=[('lo', 'int'), ('hi', 'int'), ('lom', 'int'), ('him', 'int'),
                                       ('exmin', 'bool'), ('exmax', 'bool')],
@@ -208,12 +208,28 @@ def range_obligations(pid, tier, seed):
                 obs.append(dict(id=base + '/minmax_none0', mod='h_range', fn='minmax_step', nk=m,
                                 args=[('lo', 'int'), ('bm', 'int'), ('which', 'int'), ('none0', 'bool')],
                                 pre=['0 <= bm < 3', '0 <= which < 2'], params=P, timeout=timeout))
+            # stale separators (legal stored trees whose separators are not stored keys)
+            if tag == 'core' or tier != 'quick':
+                sv = shapes.stale_variant(tpl)
+                if sv is not None and (tier != 'quick' or shapes.n_ranks(sv) <= 7):
+                    Ps = dict(P, tpl=sv)
+                    ms = shapes.n_ranks(sv)
+                    obs.append(dict(id=base + '/minmax_stale', mod='h_range', fn='minmax_step', nk=ms,
+                                    args=[('lo', 'int'), ('bm', 'int'), ('which', 'int')],
+                                    pre=['0 <= bm < 3', '0 <= which < 2'], params=Ps, timeout=timeout))
+                    if tier != 'quick' or ms <= 5:
+                        obs.append(dict(id=base + '/range_stale', mod='h_range', fn='range_step', nk=ms, args=RARGS,
+                                        pre=RPRE, params=Ps, timeout=timeout))
             # grown provenance for the core shapes: the pre-state is produced by the public API
-            if tag == 'core' and hist is not None and (tier != 'quick' or (m <= 5 and 'single' not in tag)):
+            if tag == 'core' and hist is not None:
                 N = (max(k for _, k in hist) + 1) if hist else 0
                 Pg = dict(P, prov='grown', hist=hist)
-                obs.append(dict(id=base + '/range_grown', mod='h_range', fn='range_step', nk=N, args=RARGS, pre=RPRE,
-                                params=Pg, timeout=timeout))
+                if tier != 'quick' or N <= 4:
+                    obs.append(dict(id=base + '/range_grown', mod='h_range', fn='range_step', nk=N, args=RARGS, pre=RPRE,
+                                    params=Pg, timeout=timeout))
+                obs.append(dict(id=base + '/minmax_grown', mod='h_range', fn='minmax_step', nk=N,
+                                args=[('lo', 'int'), ('bm', 'int'), ('which', 'int')],
+                                pre=['0 <= bm < 3', '0 <= which < 2'], params=Pg, timeout=timeout))
         for kind in ('Bucket', 'Set'):
             for n in ((0, 1, 3) if tier == 'quick' else (0, 1, 2, 3, 4, 5)):
                 P = dict(family='OO', impl=impl, kind=kind, n=n)
